@@ -10,6 +10,14 @@ CH_PLAIN, CH_INIT, CH_SKIP, CH_DM, CH_IDM = range(5)
 
 
 class TraverseEmitter(walk.Emitter):
+    by_tag = False
+
+    def acc(self, view, name, tagpath, carg):
+        """cursor accessor in named or by-tag form"""
+        if self.by_tag:
+            return "::sbepp::get_by_tag<%s::%s>(%s, %s)" % (tagpath, name, view, carg)
+        return "%s.%s(%s)" % (view, name, carg)
+
     def member(self, out, m, view, pkey, tagpath, ind):
         a = out.append
         key = '%s + std::string(".%s")' % (pkey, m.name)
@@ -19,14 +27,14 @@ class TraverseEmitter(walk.Emitter):
         a('%s{ int ch_ = o.choice();' % ind)
         for ch, w in ((CH_DM, 2), (CH_IDM, 3)):
             a('%s  if(ch_ == %d) {' % (ind, ch))
-            self.dump_node(out, m.node, "%s.%s(%s)" % (view, m.name, WRAP[w] % "c"), key, tagpath, m.name, "ra", ind + "    ")
+            self.dump_node(out, m.node, self.acc(view, m.name, tagpath, WRAP[w] % "c"), key, tagpath, m.name, "ra", ind + "    ")
             a('%s    o.curline(c.pointer()); }' % ind)
-        a('%s  if(ch_ == %d) { %s.%s(%s); o.key(%s); o.key(" skipped"); o.nl(); o.curline(c.pointer()); }' % (ind, CH_SKIP, view, m.name, WRAP[4] % "c", key))
+        a('%s  if(ch_ == %d) { %s; o.key(%s); o.key(" skipped"); o.nl(); o.curline(c.pointer()); }' % (ind, CH_SKIP, self.acc(view, m.name, tagpath, WRAP[4] % "c"), key))
         a('%s  else if(ch_ == %d) {' % (ind, CH_INIT))
-        self.dump_node(out, m.node, "%s.%s(%s)" % (view, m.name, WRAP[1] % "c"), key, tagpath, m.name, "ra", ind + "    ")
+        self.dump_node(out, m.node, self.acc(view, m.name, tagpath, WRAP[1] % "c"), key, tagpath, m.name, "ra", ind + "    ")
         a('%s    o.curline(c.pointer()); }' % ind)
         a('%s  else {' % ind)
-        self.dump_node(out, m.node, "%s.%s(c)" % (view, m.name), key, tagpath, m.name, "ra", ind + "    ")
+        self.dump_node(out, m.node, self.acc(view, m.name, tagpath, "c"), key, tagpath, m.name, "ra", ind + "    ")
         a('%s    o.curline(c.pointer()); }' % ind)
         a('%s}' % ind)
 
@@ -40,11 +48,11 @@ class TraverseEmitter(walk.Emitter):
             gtag = "%s::%s" % (tagpath, g.name)
             a('%s{ int ch_ = o.choice();' % ind)
             for ch, w in ((CH_DM, 2), (CH_IDM, 3)):
-                a('%s  if(ch_ == %d) { auto g0_ = %s.%s(%s); o.key(%s); o.at(::sbepp::addressof(g0_)); o.num(" n=", g0_.size()); o.curinl(c.pointer()); o.nl(); }'
-                  % (ind, ch, view, g.name, WRAP[w] % "c", gkey))
-            a('%s  if(ch_ == %d) { %s.%s(%s); o.key(%s); o.key(" skipped"); o.curinl(c.pointer()); o.nl(); }'
-              % (ind, CH_SKIP, view, g.name, WRAP[4] % "c", gkey))
-            a('%s  else { auto %s = (ch_ == %d) ? %s.%s(%s) : %s.%s(c);' % (ind, gv, CH_INIT, view, g.name, WRAP[1] % "c", view, g.name))
+                a('%s  if(ch_ == %d) { auto g0_ = %s; o.key(%s); o.at(::sbepp::addressof(g0_)); o.num(" n=", g0_.size()); o.curinl(c.pointer()); o.nl(); }'
+                  % (ind, ch, self.acc(view, g.name, tagpath, WRAP[w] % "c"), gkey))
+            a('%s  if(ch_ == %d) { %s; o.key(%s); o.key(" skipped"); o.curinl(c.pointer()); o.nl(); }'
+              % (ind, CH_SKIP, self.acc(view, g.name, tagpath, WRAP[4] % "c"), gkey))
+            a('%s  else { auto %s = (ch_ == %d) ? %s : %s;' % (ind, gv, CH_INIT, self.acc(view, g.name, tagpath, WRAP[1] % "c"), self.acc(view, g.name, tagpath, "c")))
             a('%s    o.key(%s); o.at(::sbepp::addressof(%s)); o.num(" n=", %s.size()); o.curinl(c.pointer()); o.nl();' % (ind, gkey, gv, gv))
             a('%s    std::size_t %s = 0; using E_ = typename decltype(%s)::value_type; using N_ = typename decltype(%s)::size_type;' % (ind, iv, gv, gv))
             a('%s    auto %s = [&](E_ %s) {' % (ind, bd, ev))
@@ -66,16 +74,16 @@ class TraverseEmitter(walk.Emitter):
                   '::drv::hex_append(o.s, ::drv::raw_bits(d_[i_]), 1); o.key("]"); o.curinl(c.pointer()); o.nl();' % dkey)
             a('%s{ int ch_ = o.choice();' % ind)
             for ch, w in ((CH_DM, 2), (CH_IDM, 3)):
-                a('%s  if(ch_ == %d) { auto d_ = %s.%s(%s); %s }' % (ind, ch, view, d.name, WRAP[w] % "c", pr))
-            a('%s  if(ch_ == %d) { %s.%s(%s); o.key(%s); o.key(" skipped"); o.curinl(c.pointer()); o.nl(); }' % (ind, CH_SKIP, view, d.name, WRAP[4] % "c", dkey))
-            a('%s  else if(ch_ == %d) { auto d_ = %s.%s(%s); %s }' % (ind, CH_INIT, view, d.name, WRAP[1] % "c", pr))
-            a('%s  else { auto d_ = %s.%s(c); %s }' % (ind, view, d.name, pr))
+                a('%s  if(ch_ == %d) { auto d_ = %s; %s }' % (ind, ch, self.acc(view, d.name, tagpath, WRAP[w] % "c"), pr))
+            a('%s  if(ch_ == %d) { %s; o.key(%s); o.key(" skipped"); o.curinl(c.pointer()); o.nl(); }' % (ind, CH_SKIP, self.acc(view, d.name, tagpath, WRAP[4] % "c"), dkey))
+            a('%s  else if(ch_ == %d) { auto d_ = %s; %s }' % (ind, CH_INIT, self.acc(view, d.name, tagpath, WRAP[1] % "c"), pr))
+            a('%s  else { auto d_ = %s; %s }' % (ind, self.acc(view, d.name, tagpath, "c"), pr))
             a('%s}' % ind)
 
     def fn(self, rmsg, byte="const unsigned char"):
         out = []
         a = out.append
-        a('static void dump_curw_%s(%s* p_, std::size_t n_, ::drv::Out& o)' % (rmsg.name, byte))
+        a('static void dump_curw%s_%s(%s* p_, std::size_t n_, ::drv::Out& o)' % ("t" if self.by_tag else "", rmsg.name, byte))
         a('{')
         a('  %s m{p_, n_}; o.base = (const unsigned char*)p_; std::string k0 = "%s";' % (self.n.msg_class(rmsg, byte), rmsg.name))
         a('  auto c = ::sbepp::init_cursor(m); o.key(k0); o.at(::sbepp::addressof(m)); o.curinl(c.pointer()); o.nl();')
@@ -179,12 +187,16 @@ class TraverseExpect(walk.Expect):
 def driver_source(schema, rmsgs, top_header):
     from . import build
     em = TraverseEmitter(schema, rmsgs)
+    emt = TraverseEmitter(schema, rmsgs)
+    emt.by_tag = True
     out = ['#include <%s>' % top_header, '#include "drv.hpp"', '#include <sstream>', 'VH_DEFINE_ASSERT_HANDLER', '']
     for rm in rmsgs:
         out.append(em.fn(rm))
+        out.append(emt.fn(rm))
     out.append('static void run_dump(int mi, const std::string& mode, const unsigned char* p, std::size_t n, ::drv::Out& o)\n{')
     for i, rm in enumerate(rmsgs):
-        out.append('  if(mi == %d) return dump_curw_%s(p, n, o);' % (i, rm.name))
+        out.append('  if(mi == %d && mode == "curw") return dump_curw_%s(p, n, o);' % (i, rm.name))
+        out.append('  if(mi == %d && mode == "curwt") return dump_curwt_%s(p, n, o);' % (i, rm.name))
     out.append('  std::exit(72);\n}')
     out.append('static void run_enc(int, const std::string&, unsigned char*, std::size_t, ::drv::In&, ::drv::Chk&) { std::exit(72); }')
     out.append(build.MAIN_TMPL)
